@@ -120,6 +120,8 @@ def run(ctx, rep):
 
 
     claimonce(ctx, rep, eng, tab)
+    from .C10 import skipmap
+    skipmap(ctx, rep)
 
 
 def _deref_targets(fn, lv):
